@@ -116,13 +116,18 @@ class SurfRef:
         return ((u, v) in self.he) != ((v, u) in self.he)
 
     def border_edges(self):
-        return set(e for e in self.uedges if self.edge_on_border(*e))
+        # (cached: the reference is immutable; callers get a fresh set each time)
+        if getattr(self, "_border_edges", None) is None:
+            self._border_edges = frozenset(e for e in self.uedges if self.edge_on_border(*e))
+        return set(self._border_edges)
 
     def border_vertices(self):
-        s = set()
-        for a, b in self.border_edges():
-            s.add(a); s.add(b)
-        return s
+        if getattr(self, "_border_vertices", None) is None:
+            s = set()
+            for a, b in self.border_edges():
+                s.add(a); s.add(b)
+            self._border_vertices = frozenset(s)
+        return set(self._border_vertices)
 
     def face_neighbours(self, f):
         """multiset (sorted list) of faces across each side of f"""
